@@ -448,10 +448,123 @@ def w_frag_enum(item, rep):
                                   {"part": "frag-enum", "max": mx, "ops": [list(o) for o in seq], "seed": seed})
 
 
+def _fraghist_msgs(seed):
+    """three fragmented messages: 0 and 1 share the frame id (two freshly booted senders), 0 and 2 share the origin;
+    message types 1 and 2 are also legal fragment counters (the cache's `reserved` byte holds the type after a LAST)"""
+    fid = (0x0D00 + seed) & 0xFFFF
+    return [Rec(0o2, 0o1, fid, 1, 1, H.pattern(30, seed, 130)), Rec(0o3, 0o1, fid, 65, 65, H.pattern(41, seed, 131)),
+            Rec(0o2, 0o1, (fid + 1) & 0xFFFF, 2, 2, H.pattern(60, seed, 132))]
+
+
+def _fragments(rec):
+    """[(label, Rec)] FIRST, MORE.., LAST of the message"""
+    n = (len(rec.message) + 23) // 24
+    out = []
+    for k in range(n):
+        body = rec.message[24 * k:24 * k + 24]
+        if k == n - 1:
+            out.append(("L", Rec(rec.from_node, rec.to_node, rec.frame_id, 150, rec.message_type, body)))
+        else:
+            out.append(("F" if k == 0 else "M", Rec(rec.from_node, rec.to_node, rec.frame_id, 148 if k == 0 else 149, n - k, body)))
+    return out
+
+
+def w_fraghist_enum(item, rep):
+    """single fragments in every order: every sequence (depth <= d) over {F0, L0, F1, L1, F2, M2, L2, plain, deq} x capacity.
+    Oracle (implementation independent): (1) everything queued is a plain frame or one complete message exactly as sent;
+    (2) no two queued frames share (origin, id, type), never more than max; (3) a message appears only at its own LAST
+    fragment and only if its FIRST (and MORE) were fed, in order, since it last appeared - one transmission, one delivery;
+    (4) otherwise the queue is unchanged (dequeue removes the head); (5) an uninterrupted in-order fragment run of one
+    message is delivered when there is room and no frame with its key is waiting."""
+    import itertools
+    seed, pid, depth, first_op = item
+    msgs = _fraghist_msgs(seed)
+    plain = Rec(0o4, 0o1, (0x0D10 + seed) & 0xFFFF, 66, 0, H.pattern(6, seed, 133))
+    frs = [_fragments(m) for m in msgs]
+    ops = [("frag", j, k) for j in range(3) for k in range(len(frs[j]))] + [("plain",), ("deq",)]
+    valid = {(m.from_node, m.to_node, m.frame_id, m.message_type, bytes(m.message)): j for j, m in enumerate(msgs)}
+    valid[(plain.from_node, plain.to_node, plain.frame_id, plain.message_type, bytes(plain.message))] = "p"
+    view = lambda q: [(x.from_node, x.to_node, x.frame_id, x.message_type, bytes(x.message)) for x in contents(q)]  # noqa
+    for mx in (1, 2):
+        for n in range(1, depth + 1):
+            for tail in itertools.product(ops, repeat=n - 1):
+                seq = (ops[first_op],) + tail
+                H.reset_frame_ids()
+                q = H.m_structs.FrameQueueFrag()
+                q.max_queue_size = mx
+                progress = [0, 0, 0]  # fragments of message j fed in order since it last appeared (subsequence)
+                run_len = [0, 0, 0]  # ... consecutively (uninterrupted run)
+                before = []
+                bad = None
+                for op in seq:
+                    if op[0] == "frag":
+                        j, k = op[1], op[2]
+                        lab, fr = frs[j][k]
+                        q.enqueue(build(fr, mutable=(k % 2 == 1)))
+                        progress[j] = k + 1 if (k == 0 or progress[j] == k) else (progress[j] if k else 1)
+                        for jj in range(3):
+                            run_len[jj] = (k + 1 if (k == 0 or run_len[j] == k) else 0) if jj == j else 0
+                    elif op[0] == "plain":
+                        q.enqueue(build(plain, mutable=False))
+                        run_len = [0, 0, 0]
+                    else:
+                        q.dequeue()
+                    got = view(q)
+                    keys = [(g[0], g[2], g[3]) for g in got]
+                    if any(g not in valid for g in got):
+                        g = [x for x in got if x not in valid][0]
+                        bad = ("fragment-history:content", "queue holds a frame nobody sent: origin 0o%o id %d type %d, %d bytes" % (g[0], g[2], g[3], len(g[4])))
+                    elif len(set(keys)) != len(keys):
+                        bad = ("duplicate-held:reassembled", "two queued frames share (origin, id, type): %r" % (keys,))
+                    elif len(got) > mx:
+                        bad = ("bound:reassembled:len>max", "%d frames queued with max_queue_size %d" % (len(got), mx))
+                    elif op[0] == "deq":
+                        if got != before[1:]:
+                            bad = ("fragment-history:dequeue", "dequeue changed the queue from %d to %d frames" % (len(before), len(got)))
+                    else:
+                        new = got[len(before):] if got[:len(before)] == before else None
+                        if new is None or len(new) > 1:
+                            bad = ("fragment-history:order", "an enqueue changed frames that were already waiting")
+                        elif new:
+                            who = valid[new[0]]
+                            if op[0] == "plain":
+                                if who != "p":
+                                    bad = ("fragment-history:spurious", "a plain frame made message %s appear" % who)
+                            elif who == "p" or who != op[1] or op[2] != len(frs[op[1]]) - 1:
+                                bad = ("fragment-history:spurious", "fragment %s of message %d made %s appear" % (frs[op[1]][op[2]][0], op[1], who))
+                            elif progress[who] != len(frs[who]):
+                                bad = ("fragment-history:delivered-twice-or-incomplete", "message %d appeared although its fragments were not all fed "
+                                       "in order since it last appeared" % who)
+                            else:
+                                progress[who] = 0
+                        elif op[0] == "frag" and op[2] == len(frs[op[1]]) - 1 and run_len[op[1]] == len(frs[op[1]]):
+                            m = msgs[op[1]]
+                            if len(before) < mx and (m.from_node, m.frame_id, m.message_type) not in [(g[0], g[2], g[3]) for g in before]:
+                                bad = ("fragment-history:complete-message-dropped", "an uninterrupted in-order fragment run of message %d was not delivered" % op[1])
+                        elif op[0] == "plain" and len(before) < mx and "p" not in [valid[g] for g in before]:
+                            bad = ("fragment-history:plain-dropped", "a plain frame was refused with room in the queue")
+                    if op[0] == "frag" and op[2] == len(frs[op[1]]) - 1:
+                        run_len[op[1]] = 0
+                    before = got
+                    if bad:
+                        break
+                rep.case()
+                rep.transitions += len(seq)
+                rep.traces += 1
+                rep.outcome("fraghist:len%d:%s" % (len(before), "violation" if bad else "ok"))
+                rep.nt("fraghist:%d:%r" % (mx, seq))
+                if bad:
+                    rep.violation("%s/%s" % (pid, bad[0]), "%s [max %d: %s]" % (bad[1], mx, ", ".join(
+                        (frs[o[1]][o[2]][0] + str(o[1])) if o[0] == "frag" else o[0] for o in seq)),
+                        {"part": "fraghist-enum", "max": mx, "ops": [list(o) for o in seq], "seed": seed})
+    rep.part("fraghist-enum", sequences=1)
+
+
 def run(tier, seed, rep, only=None):
     if not only or "enum" in only:
         pmap(w_toggle_enum, [(seed, PID)], rep)
         pmap(w_frag_enum, [(seed, PID, 5 if tier == "quick" else 6)], rep)
+        pmap(w_fraghist_enum, [(seed, PID, 5 if tier == "quick" else 7, f) for f in range(9)], rep)
         if only and "enum" in only:
             return dict(level="model_checking", exhaustive=True, rule="", bounds={}, trusted_base=[], assumptions=[], min_outcomes=2)
     dq, dn = (7, 4) if tier == "quick" else (9, 5)
@@ -464,7 +577,8 @@ def run(tier, seed, rep, only=None):
         level="model_checking",
         exhaustive=True,
         rule="Directed enumerations: fragmentation toggle for every capacity 0..12 x fill 0..capacity x direction; every sequence (depth 5/6) of plain / "
-             "fragmented (FIRST+LAST, same or own key) frames and dequeues x capacity on FrameQueueFrag. "
+             "fragmented (FIRST+LAST, same or own key) frames and dequeues x capacity on FrameQueueFrag; every sequence (depth 5/7) of single fragments of three "
+             "messages (two share the frame id, two the origin; 2 and 3 fragments; types 1, 2, 65), a plain frame and dequeue x capacity {1,2}. "
              "E-BFS with dedup on (real queue contents, caller-held frame objects, reference model) over every sequence of "
              "the alphabet up to the depth, from an empty FrameQueueFrag and an empty FrameQueue; after every operation the "
              "return value and the complete contents (drained from a deep copy through dequeue()) are compared with "
@@ -476,7 +590,8 @@ def run(tier, seed, rep, only=None):
                               "(all header fields; bytearray message in place / bytes message rebound)", "reuse(i<2) enqueue the caller's "
                               "object again as it is now", "deq", "peek", "len", "setmax(0|1|2|6)", "toggle fragmentation"]),
         trusted_base=["vf/ref/queue.py"],
-        assumptions=["BFS part: frame types outside the fragment types 148..150; the frag-enum part feeds complete in-order FIRST+LAST pairs (loss / reordering of fragments is C06)",
+        assumptions=["BFS part: frame types outside the fragment types 148..150; the frag-enum part feeds complete in-order FIRST+LAST pairs, the fraghist-enum part single "
+                     "fragments in every order with an implementation-independent oracle (what a receiver must at least / may at most hand out); loss patterns on the air are C06",
                      "header fields within their wire widths (12-bit addresses, 16-bit id, 8-bit type/reserved)",
                      "'never more than max_queue_size' is required at every accepting enqueue; frames already queued when the "
                      "maximum is lowered stay queued", "CPython 3.12 only"],
@@ -487,10 +602,13 @@ def run(tier, seed, rep, only=None):
 def replay(data):
     r = data["replay"]
     pid = data.get("property", PID)
-    if r["part"] in ("toggle-enum", "frag-enum"):
+    if r["part"] in ("toggle-enum", "frag-enum", "fraghist-enum"):
         rep = __import__("vf.engine", fromlist=["Report"]).Report()
         if r["part"] == "toggle-enum":
             w_toggle_enum((r["seed"], pid), rep)
+        elif r["part"] == "fraghist-enum":
+            first = [("frag", 0, 0), ("frag", 0, 1), ("frag", 1, 0), ("frag", 1, 1), ("frag", 2, 0), ("frag", 2, 1), ("frag", 2, 2), ("plain",), ("deq",)].index(tuple(r["ops"][0]))
+            w_fraghist_enum((r["seed"], pid, len(r["ops"]), first), rep)
         else:
             w_frag_enum((r["seed"], pid, len(r["ops"])), rep)
         want = data.get("signature")
